@@ -78,7 +78,15 @@ def gen_cmp(ch, d_arith=1, percent_ok=False):
     op = ch.choice(ops)
     if op in CMP_WORD:
         op = ch.choice([op, op.lower(), op.capitalize()])
-    return ["cmp", op, gen_arith(ch, d_arith), gen_arith(ch, d_arith)]
+    left = gen_arith(ch, d_arith)
+    if ch.chance(1, 6):
+        # a chain of comparison-level operators without parentheses groups from the left: a > 1 = 1 is (a > 1) = 1
+        op0 = ch.choice(CMP_SYM + CMP_WORD)
+        left = ["cmp", op0, left, gen_arith(ch, d_arith)]
+    right = gen_arith(ch, d_arith)
+    if ch.chance(1, 12):
+        right = ["cmp", ch.choice(CMP_SYM), right, gen_atom(ch)]   # needs explicit parentheses on the right
+    return ["cmp", op, left, right]
 
 
 def gen_logic(ch, d):
@@ -157,10 +165,11 @@ def src(t, ch, parent=0, right=False, stats=None):
         op = {"or": ["OR", "or", "||", "Or"], "and": ["AND", "and", "&&", "And"]}[k]
         s = src(t[1], ch, level(t), stats=stats) + " " + ch.choice(op) + " " + src(t[2], ch, level(t), True, stats=stats)
     elif k == "cmp":
-        s = src(t[2], ch, level(t) + 1, stats=stats) + " " + t[1] + " " + src(t[3], ch, level(t) + 1, True, stats=stats)
+        # comparison operators are left-associative: a nested comparison needs parentheses only on the right
+        s = src(t[2], ch, level(t), stats=stats) + " " + t[1] + " " + src(t[3], ch, level(t), True, stats=stats)
     else:  # bin
         s = src(t[2], ch, level(t), stats=stats) + " " + t[1] + " " + src(t[3], ch, level(t), True, stats=stats)
-    need = level(t) < parent or (level(t) == parent and right and k in ("or", "and", "bin"))
+    need = level(t) < parent or (level(t) == parent and right and k in ("or", "and", "bin", "cmp"))
     if need:
         if stats is not None:
             stats["required_paren"] = stats.get("required_paren", 0) + 1
